@@ -859,3 +859,71 @@ def getln_sites(db, rep, prog):
             bad['getln:bytes-are-stored-only-into-reserved-space'] = ('input %r through a 4-byte buffer: byte %d of the line is stored while %d byte(s) are reserved (%s)' % (data, H.over[0], H.over[1], H.over[2]), H.over[3])
     return {k: (k not in bad, 'getln2.c:getln2', bad[k][0] if k in bad else '%d inputs' % n, bad[k][1] if k in bad else [])
             for k in ('getln:the-line-is-handed-back-whole', 'getln:bytes-are-stored-only-into-reserved-space')}
+
+
+# =============================================================================== allwrite / substdio_flush results
+class WriteScript(Conc):
+    """a scripted write operation: each entry is the number of bytes the kernel takes, or (-1, errno)"""
+    def __init__(self, entry, script):
+        super().__init__(entry)
+        self.script = script
+
+    def on_call(self, E, x, args):
+        if x.callee is None:
+            k = one(E.get('$k')) or 0
+            calls = tuple(one(E.get('$calls')) or ())
+            bp, n = one(args[1]), one(args[2])
+            off = int(bp[1][2:-1]) if isinstance(bp, tuple) and bp[0] == '&' and bp[1].startswith('B[') else None
+            calls = calls + ((off, n),)
+            if k >= len(self.script):
+                return 'noreturn'
+            r = self.script[k]
+            sets = {'$k': fs(k + 1), '$calls': fs(calls)}
+            if isinstance(r, tuple):
+                sets['$errno'] = fs(r[1])
+                return [Outcome(ret=fs(-1), sets=sets, log='write fails with errno %d' % r[1])]
+            return [Outcome(ret=fs(r), sets=sets, log='write takes %d of %s bytes' % (r, n))]
+        return super().on_call(E, x, args)
+
+    def materialize(self, E, path):
+        if path in ('G:error_intr', 'E:error_intr'):
+            return fs(4)
+        return TOP
+
+
+def allwrite_result_sites(db, rep, prog):
+    """allwrite(): 0 exactly when every byte was taken (short writes and EINTR retried from the first unwritten byte), -1 on any other error;
+    substdio_flush(): hands on allwrite's result and leaves the buffer empty"""
+    EINTR, EIO = 4, 5
+    aw = db.fn('substdo.c', 'allwrite')
+    fl = db.fn('substdo.c', 'substdio_flush')
+    bad = {}
+    scen = [(10, [10], 0, [(0, 10)]), (10, [3, 7], 0, [(0, 10), (3, 7)]), (10, [3, (-1, EIO)], -1, [(0, 10), (3, 7)]), (10, [(-1, EIO)], -1, [(0, 10)]),
+            (10, [(-1, EINTR), 4, (-1, EINTR), 6], 0, [(0, 10), (0, 10), (4, 6), (4, 6)]), (0, [], 0, []), (5, [1, 1, 1, 1, 1], 0, [(0, 5), (1, 4), (2, 3), (3, 2), (4, 1)])]
+    for ln, script, want_r, want_calls in scen:
+        H = WriteScript('allwrite', script)
+        e = Engine(db, prog, H, max_states=20000)
+        fid = e.frame_id(aw)
+        e.run(aw, {'%s::%s' % (fid, aw.params[0]): fs(('fn', 'OP')), '%s::%s' % (fid, aw.params[1]): fs(7), '%s::%s' % (fid, aw.params[2]): fs(('&', 'B[0]')), '%s::%s' % (fid, aw.params[3]): fs(ln)})
+        rep.count_states(e.states, e.transitions)
+        if len(H.ends) != 1:
+            bad.setdefault('allwrite:0=everything-written,-1=error,short-writes-and-EINTR-retried', ('%d bytes, write results %s: allwrite() does not come back (%d ends): it asks for more writes than the data needs' % (ln, script, len(H.ends)), []))
+            continue
+        store, val, tr = H.ends[0]
+        got_r, got_calls = one(val), list(one(store.get('$calls')) or ())
+        if got_r != want_r or got_calls != want_calls:
+            bad.setdefault('allwrite:0=everything-written,-1=error,short-writes-and-EINTR-retried',
+                           ('%d bytes, write results %s: allwrite() returns %s after the writes (offset, length) %s; documented %s after %s' % (ln, script, got_r, got_calls, want_r, want_calls), tr))
+    for script, want_r in (([5], 0), ([(-1, EIO)], -1), ([2, 3], 0)):
+        H = WriteScript('substdio_flush', script)
+        e = Engine(db, prog, H, max_states=20000)
+        fid = e.frame_id(fl)
+        e.run(fl, {'%s::%s' % (fid, fl.params[0]): fs(('&', 'SS')), 'SS.x': fs(('&', 'B[0]')), 'SS.p': fs(5), 'SS.n': fs(16), 'SS.fd': fs(7), 'SS.op': fs(('fn', 'OP'))})
+        rep.count_states(e.states, e.transitions)
+        if len(H.ends) != 1:
+            raise AnalysisBroken('substdio_flush: %d ends for the write results %s' % (len(H.ends), script))
+        store, val, tr = H.ends[0]
+        if one(val) != want_r or one(store.get('SS.p')) != 0:
+            bad.setdefault('flush-returns-allwrite', ('5 bytes buffered, write results %s: substdio_flush() returns %s and leaves %s byte(s) in the buffer; documented %s and an empty buffer' % (script, one(val), one(store.get('SS.p')), want_r), tr))
+    return {k: (k not in bad, 'substdo.c', bad[k][0] if k in bad else 'scripted write results', bad[k][1] if k in bad else [])
+            for k in ('allwrite:0=everything-written,-1=error,short-writes-and-EINTR-retried', 'flush-returns-allwrite')}
